@@ -21,9 +21,10 @@ func init() {
 		Rule: "API-level differential against crypto/ed25519: NewKeyFromSeed, Sign, PrivateKey.Sign (bytes equal) for seeded seeds and messages of length 0..300 and 1 MiB; Verify verdicts on the cross product A in {honest, the 8 small-order points in canonical and non-canonical encodings, y not on the curve, y = p-1, p, p+1, 2^255-1, x = 0 with the sign bit} x R likewise x S in {honest, S+kL, L-1, L, 0, each of the top three bits}, every single-bit flip of an honest (A, msg, sig) triple, 63/65-byte signatures, forged small-order signatures (S = 0, R = -[k]A found by search); histories of 12..22 consecutive Verify calls over related inputs (a key and its negation with signatures valid under each, an invalid key encoding twice in a row signed with the previous key's scalar, one-bit neighbours, small-order keys, exact repeats) with key, message and signature in buffers refilled in place; " +
 			"GenerateKey under the same scripted entropy reader on both sides (fault position 0..33 x 4 chunkings, exhaustive): same outputs, same error, same bytes consumed. " +
 			"Operation-level reference model through the verif-tagged hook: scalar reduction of 64 and 32 bytes, clamping, canonical check, MultiplyAdd/Add/Sub/Neg/Mul, the fork's own ModInverse, point decoding (accept set and value), ScalarMult, ScalarBaseMult, VarTimeDoubleScalarBaseMult, point Add/Sub/Neg, each compared with a math/big twisted-Edwards model on limb-boundary operand patterns (21-bit and all 864 combinations of 64-bit limbs in {0, 1, 2^64-1, 2^63, 2^32-1, 2^63+1}), L-1, L, L+1, 2^252+-1, small-order and seeded points. " +
+			"Field level (hooks VerifField*): Add/Subtract/Negate/Multiply/Square/Invert/Absolute/Pow22523/IsNegative/Equal/Mult32/Select/Swap/SqrtRatio and nine expressions with non-canonical intermediates against math/big modulo 2^255-19 on operands whose five 51-bit limbs are each one of {0, 1, 19, 2^50, 2^51-19, 2^51-2, 2^51-1} (every 7th of the 16807 patterns quick, all thorough), encodings p..p+18 with and without bit 255, seeded pairs. " +
 			"distinct_nontrivial = distinct (case class, operand pattern) keys",
 		Floors: []string{"keys_equal_std", "signatures_equal_std", "verify_agree_accept", "verify_agree_reject", "small_order_inputs", "noncanonical_inputs", "s_plus_L_inputs", "forged_small_order_accepted_by_both", "bitflips", "generatekey_same_as_std",
-			"cold_start_verify_agrees", "identity_key_high_s", "hook_scalar_ops", "hook_point_decode", "hook_scalar_mult", "hook_modinverse", "model_agrees_with_std", "hook_limb_pattern_scalars", "history_verify_agree_accept", "history_verify_agree_reject"},
+			"cold_start_verify_agrees", "identity_key_high_s", "hook_scalar_ops", "hook_point_decode", "hook_scalar_mult", "hook_modinverse", "model_agrees_with_std", "hook_limb_pattern_scalars", "hook_field_limb_patterns", "hook_field_noncanonical", "hook_field_seeded", "history_verify_agree_accept", "history_verify_agree_reject"},
 		Assumptions: []string{"crypto/ed25519 of the Go toolchain that builds the harness is the reference", "the math/big model is cross-checked against crypto/ed25519 in the same run (class model_agrees_with_std)"},
 		SelfCheck:   []string{"model_disagrees_with_std"},
 		Run:         runC14,
@@ -405,6 +406,7 @@ func runC14(c *core.Ctx) {
 
 	// ---------------- D. operation-level model through the hook
 	m.hookOps()
+	m.fieldOps()
 	m.verifyHistories()
 }
 
